@@ -6,32 +6,35 @@ V = os.path.dirname(os.path.dirname(os.path.abspath(__file__)))
 def short(s, n):
     s = re.sub(r"\s+", " ", str(s or "")).replace("|", "/").strip()
     return s if len(s) <= n else s[:n - 1].rstrip() + "…"
-rows = []
-tot = caught0 = caughtS = missed = 0
-for p in sorted(glob.glob(os.path.join(V, "seeded", "*-r2m*", "meta.json"))):
-    m = json.load(open(p)); name = p.split("/")[-2]
-    tot += 1
-    if m.get("caught") and not m.get("caught_after_strengthening"):
-        res = "caught"; caught0 += 1
-    elif m.get("caught"):
-        res = "first missed; caught after strengthening"; caughtS += 1
-    else:
-        res = "**missed**"; missed += 1
-    kind = ""
-    cr = m.get("recheck") or m.get("check_result") or ""
-    if "no-failing-input-found" in cr: kind = " (broken obligation, no failing input found)"
-    elif "counterexample" in cr: kind = " (counterexample)"
-    if m.get("caught_by"): kind += " by " + m["caught_by"]
-    note = (" — " + short(m.get("note"), 260)) if m.get("note") else ""
-    rows.append("| %s | %s / needs: %s | %s%s%s |" % (name, short(m.get("breaks"), 230), short(m.get("needs"), 200), res, kind, note))
-head = ("Round 2: %d changes written by fresh sub-agents that were also given the list of round-1 ideas to avoid; "
+def table(rnd):
+  rows = []
+  tot = caught0 = caughtS = missed = 0
+  for p in sorted(glob.glob(os.path.join(V, "seeded", "*-r%dm*" % rnd, "meta.json"))):
+      m = json.load(open(p)); name = p.split("/")[-2]
+      tot += 1
+      if m.get("caught") and not m.get("caught_after_strengthening"):
+          res = "caught"; caught0 += 1
+      elif m.get("caught"):
+          res = "first missed; caught after strengthening"; caughtS += 1
+      else:
+          res = "**missed**"; missed += 1
+      kind = ""
+      cr = m.get("recheck") or m.get("check_result") or ""
+      if "no-failing-input-found" in cr: kind = " (broken obligation, no failing input found)"
+      elif "counterexample" in cr: kind = " (counterexample)"
+      if m.get("caught_by"): kind += " by " + m["caught_by"]
+      note = (" — " + short(m.get("note"), 260)) if m.get("note") else ""
+      rows.append("| %s | %s / needs: %s | %s%s%s |" % (name, short(m.get("breaks"), 230), short(m.get("needs"), 200), res, kind, note))
+  head = ("Round %d: %d changes written by fresh sub-agents that were also given the list of the earlier rounds' ideas to avoid; "
         "%d caught by the checks as they stood, %d first missed and caught after general strengthening of the "
-        "generators / translators, %d still missed.\n\n| change | what it breaks / needs | result |\n|---|---|---|\n" % (tot, caught0, caughtS, missed))
-block = "<!-- BEGIN R2 -->\n" + head + "\n".join(rows) + "\n<!-- END R2 -->"
+        "generators / translators, %d still missed.\n\n| change | what it breaks / needs | result |\n|---|---|---|\n" % (rnd, tot, caught0, caughtS, missed))
+  print("round %d: %d total, %d caught, %d after strengthening, %d missed" % (rnd, tot, caught0, caughtS, missed))
+  return head + "\n".join(rows) if tot else ""
+t2, t3 = table(2), table(3)
+block = "<!-- BEGIN R2 -->\n" + t2 + ("\n\n" + t3 if t3 else "") + "\n<!-- END R2 -->"
 dp = os.path.join(V, "DESIGN.md"); s = open(dp).read()
 if "<!-- BEGIN R2 -->" in s:
     s = re.sub(r"<!-- BEGIN R2 -->.*?<!-- END R2 -->", lambda _: block, s, flags=re.S)
 else:
     s = s.replace("### 10.7 Trusted base as built", block + "\n\n### 10.7 Trusted base as built")
 open(dp, "w").write(s)
-print("round 2: %d total, %d caught, %d after strengthening, %d missed" % (tot, caught0, caughtS, missed))
